@@ -70,7 +70,10 @@ def gen_tree(rng, scratch: str) -> typing.Tuple[Tree, typing.List[bytes], typing
            "0Dangling\tdangling\n0Loop\tloop-a\n1Link to dir\tto-sub\n0Missing\tnothing-here\n"
            # directories named the way gophermap authors usually do, with a slash at the end; one has sidecars
            "1Sub with a slash\tsub/\n1Described with a slash\tdescribed/\n1Through a link, with a slash\tto-sub/\n"
-           "1Described, plain\tdescribed\n0A file with a slash\tfile.txt/\n")
+           "1Described, plain\tdescribed\n0A file with a slash\tfile.txt/\n"
+           # absolute selectors: they name objects of the site, not members (whatever their length or their last component)
+           "0Site file\t/ZQXSITE-file.txt\n0Same length as the archive's name\t/ZQXSITEdir/mapped-dir/file.txt\n1Site directory\t/ZQXSITEdir\n"
+           "0Not there at all\t/ZQXSITE-nothing.txt\n")
     t.file(b"mapped-dir/described/inside.txt", "inside\n")
     t.file(b"mapped-dir/described/.abstract", "Abstract of the described directory")
     t.file(b"mapped-dir/described/.keywords", "described, keywords")
@@ -156,6 +159,11 @@ def differential(chk: Check, sc: Scratch, idx: int) -> None:
     dates = {p: (drng.choice(odd_dates) if drng.random() < 0.3 else (2020, 9, 13, 12, 26, 40)) for p in sorted(zt.nodes)}
     chk.count("members_with_odd_dos_dates", sum(1 for d in dates.values() if d in odd_dates))
     site_tree.file(ARCH + b".zip", zt.to_zip(explicit_dirs=True, omit_dirs=implicit, date_for=dates.get))
+    # objects of the site itself, named by absolute selectors in the archived gophermap (one sits where cutting the
+    # archive's name off the selector would land on a member)
+    site_tree.file(b"ZQXSITE-file.txt", "a file of the site\n" * 300)
+    site_tree.file(b"ZQXSITEdir/mapped-dir/file.txt", "the site's own file, not the member\n" * 100)
+    site_tree.file(b"ZQXSITEdir/mapped-dir/file.txt.abstract", "Abstract of the site's file")
     site_tree.materialize(root)
     site = driver.Site(root, handlers=driver.HANDLERS_FULL)
     try:
